@@ -479,6 +479,14 @@ func scConfLaggingApplier(d *Driver) {
 			joiners = append(joiners, id)
 		}
 	}
+	switch v := d.r.Intn(10); {
+	case v < 4 && len(joiners) >= 2 && len(oth) >= 2:
+		scTwoChangesBehind(d, l, x, joiners)
+		return
+	case v < 6:
+		scOwnRemovalPending(d, l, x)
+		return
+	}
 	nChanges := 1 + d.r.Intn(3)
 	for k := 0; k < nChanges; k++ {
 		ld := d.leader()
@@ -547,6 +555,149 @@ func scConfLaggingApplier(d *Driver) {
 	d.unfreeze()
 	d.heal()
 	d.settle(120)
+}
+
+// waitFor runs the calm driver until cond holds (bounded).
+func (d *Driver) waitFor(max int, cond func() bool) bool {
+	for k := 0; k < max; k++ {
+		if cond() {
+			return true
+		}
+		d.with(calm, 2)
+		d.maintainSnapshots()
+		if k%4 == 3 {
+			d.reportStaleSnapshots()
+		}
+	}
+	return cond()
+}
+
+func hasVoter(n *AppNode, id uint64) bool {
+	if n == nil || n.RN == nil {
+		return false
+	}
+	st, perr := safeState(n.RN)
+	if perr != "" {
+		return false
+	}
+	for _, v := range st.ConfState.GetVoters() {
+		if v == id {
+			return true
+		}
+	}
+	return false
+}
+
+// x's application lags while the group grows by two voters, one change at a time; x and the other old
+// follower are then cut off from the (new) majority, which goes on committing; x is pushed to campaign
+func scTwoChangesBehind(d *Driver, l *AppNode, x uint64, joiners []uint64) {
+	var o uint64
+	for _, id := range d.others(l.ID) {
+		if id != x && d.c.Nodes[id].Cfg.Initial {
+			o = id
+		}
+	}
+	for k := 0; k < 2; k++ {
+		j := joiners[k]
+		kind := []string{"auto", "v1"}[d.r.Intn(2)]
+		if d.c.Do(Step{Act: "ProposeConfChange", Node: l.ID, Pid: d.nextPid, CC: fmt.Sprintf("%s:v%d", kind, j)}) {
+			d.nextPid++
+		}
+		if !d.waitFor(80, func() bool { return hasVoter(d.c.up(l.ID), j) && hasVoter(d.c.up(j), j) }) {
+			dbg("two-behind: change", k, "did not get through: leader has it", hasVoter(d.c.up(l.ID), j), "joiner has it", hasVoter(d.c.up(j), j), "leader up", d.c.up(l.ID) != nil, "joiner up", d.c.up(j) != nil)
+			for _, n := range d.upNodes() {
+				if st, perr := safeState(n.RN); perr == "" {
+					dbg("     node", n.ID, st.State, "term", st.Term, "commit", st.Commit, "applied", st.Applied, "last", st.LastIndex, "voters", st.ConfState.GetVoters(), "prs", fmt.Sprint(st.Progress))
+				}
+			}
+			d.unfreeze()
+			d.settle(100)
+			return
+		}
+	}
+	d.settle(20)
+	dbg("two-behind: grown; x", x, "o", o, "async", d.c.Nodes[x].Cfg.Async)
+	if !d.c.Nodes[x].Cfg.Async {
+		// sync mode: x takes one Ready (the committed entries are handed out) but does not apply yet
+		d.frozenReady[x] = false
+		d.c.Do(Step{Act: "Ready", Node: x})
+		d.frozenReady[x] = true
+	}
+	if st, perr := safeState(d.c.Nodes[x].RN); perr == "" {
+		dbg("   x applied", st.Applied, "applying", st.Applying, "commit", st.Commit, "voters", st.ConfState.GetVoters())
+	}
+	side := []uint64{x}
+	if o != 0 {
+		side = append(side, o)
+	}
+	d.isolate(side)
+	if ld := d.c.up(l.ID); ld != nil && safeIsLeader(ld.RN) {
+		d.propose(ld, 1+d.r.Intn(2), false)
+		d.with(calm, 30+d.r.Intn(30))
+	}
+	if pct(d.r, 50) {
+		// an election among the new majority at the same time
+		d.c.Do(Step{Act: "Campaign", Node: joiners[d.r.Intn(2)]})
+	}
+	d.c.Do(Step{Act: "Campaign", Node: x})
+	p := calm
+	p.Tick = 2
+	d.with(p, 40+d.r.Intn(30))
+	for _, n := range d.upNodes() {
+		if safeIsLeader(n.RN) {
+			d.propose(n, 1+d.r.Intn(2), false)
+		}
+	}
+	for _, n := range d.upNodes() {
+		if st, perr := safeState(n.RN); perr == "" {
+			dbg("   after campaign: node", n.ID, st.State, "term", st.Term, "commit", st.Commit, "last", st.LastIndex, "voters", st.ConfState.GetVoters())
+		}
+	}
+	d.with(p, 40)
+	d.unfreeze()
+	d.with(p, 30)
+	d.heal()
+	d.settle(120)
+}
+
+// a change that removes x is committed and handed to x's application, which has not applied it yet
+// when x is pushed to campaign; the application then catches up and the votes arrive
+func scOwnRemovalPending(d *Driver, l *AppNode, x uint64) {
+	kind := []string{"auto", "v1", "explicit"}[d.r.Intn(3)]
+	if d.c.Do(Step{Act: "ProposeConfChange", Node: l.ID, Pid: d.nextPid, CC: fmt.Sprintf("%s:r%d", kind, x)}) {
+		d.nextPid++
+	}
+	d.settle(40 + d.r.Intn(30))
+	if !d.c.Nodes[x].Cfg.Async {
+		d.frozenReady[x] = false
+		d.c.Do(Step{Act: "Ready", Node: x})
+		d.frozenReady[x] = true
+	}
+	d.holdTypes[pb.MsgVoteResp], d.holdTypes[pb.MsgPreVoteResp] = true, pct(d.r, 50)
+	if pct(d.r, 50) {
+		d.c.Do(Step{Act: "Campaign", Node: x})
+	} else {
+		for t := 0; t < 12; t++ {
+			d.c.Do(Step{Act: "Tick", Node: x})
+		}
+	}
+	show := func(tag string) {
+		if n := d.c.up(x); n != nil {
+			if st, perr := safeState(n.RN); perr == "" {
+				dbg(tag, "x", x, st.State, "term", st.Term, "commit", st.Commit, "applying", st.Applying, "applied", st.Applied, "voters", st.ConfState.GetVoters(), "net", len(d.c.Net))
+			}
+		}
+	}
+	show("own-removal: campaigned")
+	d.with(calm, 20+d.r.Intn(20))
+	show("own-removal: votes held")
+	d.unfreeze()
+	d.runNode(x)
+	show("own-removal: applied")
+	d.releaseHolds()
+	d.with(calm, 60)
+	show("own-removal: end")
+	d.settle(80)
 }
 
 // asynchronous storage writes with a stalled append (or apply) thread, repeated
